@@ -14,6 +14,7 @@ import PyamgV.Proofs.ExtC05BridgeBool
 import PyamgV.Proofs.ExtC05YEx
 import PyamgV.Proofs.ExtC05YRefine
 import PyamgV.Proofs.ExtC05YBlock
+import PyamgV.Proofs.ExtC05ZEx
 
 /-! # C05 — a solver that reports symmetric smoothing yields a Hermitian preconditioner
 
@@ -466,6 +467,62 @@ Gauss–Seidel … -/
 restate flag_cycle_spd_example := PyamgV.C05YEx.example_flag_cycle_spd
 /-- … which has vectors of non-zero energy -/
 restate flag_cycle_spd_example_nonzero := PyamgV.C05YEx.example_energy_ne
+
+/-! ## E47 -- the definiteness clause for the EXECUTED matrix, every hypothesis a proved Boolean (Proofs/ExtC05Z*.lean)
+
+`C05Z.c05SpdCheck` (`Proofs/ExtC05ZCheck.lean`, import-free, evaluated by the driver op `ext_c05z_spd` on every real
+hierarchy of the check): the finest matrix is positive definite by an exact `Uᵀ D U` certificate (`pdB`: the factors come from
+an untrusted elimination, the Boolean compares `B = Uᵀ D U` entry by entry), has a positive diagonal and is inverted by the
+model's elimination; the finest pre- or post-smoother has strict parameters and every installed smoother non-expansive ones
+(Gauss–Seidel / SOR: `0 < ω < 2` resp. `0 ≤ ω ≤ 2`; damped Jacobi: `0 < ω` and the certificate `jacB` of `2 D − ω A`); every
+coarse matrix, the coarsest included, is the Galerkin product of the dense copies and is inverted by the elimination. -/
+
+/-- soundness of the `Uᵀ D U` certificate: positive `d_k`, unit upper triangular `U`, `B = Uᵀ D U` ⇒ `zᵀ B z > 0` for
+every `z` that does not vanish on the first `n` coordinates -/
+restate pd_certificate_sound := PyamgV.C05Z.pdCert_sound
+/-- the Boolean `pdB` the driver evaluates is sound (its factors are computed, not trusted) -/
+restate pdB_sound := PyamgV.C05Z.pdB_sound
+/-- a CSR matrix with in-range indices whose dense copy passes `pdB` is positive definite as the operator `csrOp` -/
+restate pdB_csr := PyamgV.C05Z.pdB_csr
+/-- the stored diagonal `diagFn` is the diagonal of the dense copy -/
+restate diagFn_dense := PyamgV.C05Z.diagFn_dense
+/-- **`jacB isPos ω A = true` ⇒ `JacBound`** (`ω A < 2 D` as quadratic forms): the hypothesis of `jacobi_strict` is
+discharged by a proved Boolean -/
+restate jacobi_bound_certified := PyamgV.C05Z.jacB_sound
+/-- entries of the model's dense product -/
+restate mget_mmul := PyamgV.C05Z.mget_mmul
+/-- the dense Galerkin test gives the operator identity `A' = R ∘ A ∘ P` -/
+restate galerkin_check_sound := PyamgV.C05Z.galB_sound
+/-- a successful elimination gives the right inverse the cycle theorems use -/
+restate inverse_check_sound := PyamgV.C05Z.invB_sound
+/-- the parameter tests give `NonExpSm` / `StrictSm` of `smoother_nonexp` / `smoother_strict` -/
+restate nonexp_check_sound := PyamgV.C05Z.nonExpB_sound
+restate strict_check_sound := PyamgV.C05Z.strictB_sound
+/-- soundness of the per-level part of the checker -/
+restate spd_levels_sound := PyamgV.C05Z.spdH_of_B
+/-- the model hierarchy is a hierarchy as the constructors build it (`WFG` of C02: `R` adjoint to `P`, Galerkin,
+non-expansive smoothers for each level's own energy form, solvable coarse problems, exact coarsest solve) -/
+restate model_hierarchy_wfg := PyamgV.C05Z.wfg_abs
+/-- from `⟨M A v, v⟩_A > 0` on vectors of non-zero energy to `xᵀ M x > 0` for all `x ≠ 0` (finest matrix symmetric,
+definite, invertible) -/
+restate quad_of_op := PyamgV.C05Z.quad_of_op
+/-- `denseM` is positive definite under the operator-level hypotheses and `c05SpdCheck` -/
+restate denseM_pd := PyamgV.C05Z.denseM_pd
+/-- **flag `True`, `c05Check = true`, `c05SpdCheck = true` ⇒ the executed matrix `denseM` is symmetric and `xᵀ M x > 0`
+for every `x ≠ 0`** (V and W): `flag_cycle_spd` transported to the definition the driver runs, no undecided hypothesis -/
+restate flag_denseM_spd_checked := PyamgV.C05Z.flag_denseM_spd_checked
+/-- the instance the driver runs (`ℚ`, `ofRat = id`, `isPos = posR`) -/
+restate flag_denseM_spd_checked_rat := PyamgV.C05Z.flag_denseM_spd_checked_rat
+/-- non-vacuity: the checker evaluates to `true` on the 3-point Poisson two-level hierarchy with forward / backward
+Gauss–Seidel (kernel evaluation) … -/
+restate spd_check_example_true := PyamgV.C05ZEx.spd5
+/-- … so its `denseM` is symmetric positive definite with no hypothesis left; … -/
+restate spd_check_example := PyamgV.C05ZEx.example_denseM_spd
+/-- … the same with damped Jacobi (`ω = 1`) before and after: the certificate of `2 D − A` passes; … -/
+restate spd_check_example_jacobi_cert := PyamgV.C05ZEx.jacB1
+restate spd_check_example_jacobi := PyamgV.C05ZEx.example_denseM_spd_jacobi
+/-- … and the checker rejects `ω = 2` and a non-Galerkin coarse matrix -/
+restate spd_check_example_rejects := PyamgV.C05ZEx.spd_rejects
 
 /-! ## E31 -- `_same_parameters` and the flag computation, translated from the source (`harness/py2lean.py`)
 
